@@ -226,3 +226,17 @@ Proof.
   assert (dmax <> 0) by lra.
   split; field; assumption.
 Qed.
+
+(* ---------------------------------------------------------------- tail of the actuation stage *)
+Lemma act_tail_in_range : forall (frc gc : R) (g : bool) (lo hi : R), lo <= hi -> lo <= act_tail frc gc g true lo hi <= hi.
+Proof.
+  intros frc gc g lo hi H. unfold act_tail, clipT. num_R.
+  set (t := if g then frc + gc else frc).
+  destruct (Rltb t lo) eqn:A; [lra|]. destruct (Rltb hi t) eqn:B; [lra|]. booleans. lra.
+Qed.
+
+Lemma act_tail_swapped_leaves_range : exists (frc gc lo hi : R), lo <= hi /\ hi < act_tail_swapped frc gc true true lo hi.
+Proof.
+  exists 2, 1, (-1), 1. split; [lra|]. unfold act_tail_swapped, clipT. num_R.
+  rewrite (proj2 (Rltb_false 2 (-1))) by lra. rewrite (proj2 (Rltb_true 1 2)) by lra. lra.
+Qed.
